@@ -172,7 +172,15 @@ pub fn decode(base38_str: &str) -> impl Iterator<Item = Result<u8, Error>> + '_ 
             let offset = stru.len() / 5 * 5;
             decode_base38(&stru[offset..])
         })
-        .take_while(Result::is_ok)
+        // Stop at the first error, but do report it
+        .scan(false, |failed, item| {
+            if *failed {
+                None
+            } else {
+                *failed = item.is_err();
+                Some(item)
+            }
+        })
 }
 
 fn decode_base38(chars: &[u8]) -> impl Iterator<Item = Result<u8, Error>> {
@@ -184,10 +192,14 @@ fn decode_base38(chars: &[u8]) -> impl Iterator<Item = Result<u8, Error>> {
         4 => 2,
         2 => 1,
         0 => 0,
-        _ => -1,
+        _ => {
+            // Not a chunk length any encoder produces; one item, so that the error is reported
+            cerr = Some(ErrorCode::InvalidData);
+            1
+        }
     };
 
-    if repeat >= 0 {
+    if cerr.is_none() {
         for c in chars.iter().rev() {
             match decode_char(*c) {
                 Ok(v) => value = value * RADIX + v as u32,
@@ -197,23 +209,24 @@ fn decode_base38(chars: &[u8]) -> impl Iterator<Item = Result<u8, Error>> {
                 }
             }
         }
-    } else {
-        cerr = Some(ErrorCode::InvalidData)
+
+        if cerr.is_none() && (value >> (8 * repeat)) != 0 {
+            // The chunk stands for more than `repeat` bytes
+            cerr = Some(ErrorCode::InvalidData);
+        }
     }
 
-    (0..repeat)
-        .map(move |_| {
-            if let Some(err) = cerr {
-                Err(err.into())
-            } else {
-                let byte = (value & 0xff) as u8;
+    (0..repeat).map(move |_| {
+        if let Some(err) = cerr {
+            Err(err.into())
+        } else {
+            let byte = (value & 0xff) as u8;
 
-                value >>= 8;
+            value >>= 8;
 
-                Ok(byte)
-            }
-        })
-        .take_while(Result::is_ok)
+            Ok(byte)
+        }
+    })
 }
 
 fn decode_char(c: u8) -> Result<u8, Error> {
